@@ -1,8 +1,195 @@
-(* Props/C12.v — start_of/end_of delimit exactly the calendar unit that contains the value. (being filled in) *)
-From Coq Require Import ZArith Bool.
-From PV Require Import Gen.StartEnd.
+(* Props/C12.v — start_of/end_of delimit exactly the calendar unit that contains the value.
+   Model: Model/StartEnd.v (month/year/decade/century bodies translated from /repo: Gen/StartEnd.v; set/at/second..day/week hand-modelled,
+   text pinned by the generator), DateTime.create of Model/TzConvert.v, zones of Spec/Zone.v, calendar of Spec/Cal.v.
+   Units 0..8 = second minute hour day week month year decade century; ws = week_starts_at, we_of ws = the day before (consistent configurations).
+   `plain v`: naive, FixedTimezone, or a zone without transitions (UTC).  All statements are for EVERY representable value, unit and configuration. *)
+From Coq Require Import ZArith List Bool.
+From PV Require Import Lib.PyBase Spec.Cal Spec.Zone Proofs.ZoneFacts Model.TzConvert Model.StartEndBase Gen.StartEnd Model.StartEnd.
+From PV Require Import Proofs.C12Spec Proofs.C12Facts Proofs.C12Week Proofs.C12Main.
+Import ListNotations.
 Open Scope Z_scope.
 
-Theorem default_week_configuration_consistent : C12_WEEK_ENDS_AT_DEFAULT = (C12_WEEK_STARTS_AT_DEFAULT + 6) mod 7.
-Proof. reflexivity. Qed.
+(* the unit structure of the wall clock: a wall value lies between the first and last microsecond of a unit iff it has the unit's identifier *)
+Theorem unit_is_an_interval : forall u ws W W', valid_unit u ->
+  (unit_lo u ws W <= W' <= unit_hi u ws W <-> unit_id u ws W' = unit_id u ws W).
+Proof. exact unit_range_iff. Qed.
+Print Assumptions unit_is_an_interval.
+
+(* --- no DST: exact results; a raise happens exactly when the unit's boundary is outside years 1..9999 --- *)
+Theorem start_exact : forall u ws v, plain v -> wall_in_range (v_W v) = true -> valid_unit u -> week_day ws ->
+  (0 <= unit_lo u ws (v_W v) -> exists f', dt_start_of ws u v = Ok (unit_lo u ws (v_W v), f')) /\
+  (unit_lo u ws (v_W v) < 0 -> exists e, dt_start_of ws u v = Raise e).
+Proof. exact start_exact_plain. Qed.
+Print Assumptions start_exact.
+
+Theorem end_exact : forall u ws v, plain v -> wall_in_range (v_W v) = true -> valid_unit u -> week_day ws ->
+  (unit_hi u ws (v_W v) <= MAXW -> exists f', dt_end_of (we_of ws) u v = Ok (unit_hi u ws (v_W v), f')) /\
+  (MAXW < unit_hi u ws (v_W v) -> exists e, dt_end_of (we_of ws) u v = Raise e).
+Proof. exact end_exact_plain. Qed.
+Print Assumptions end_exact.
+
+Theorem start_same_unit : forall u ws v, plain v -> wall_in_range (v_W v) = true -> valid_unit u -> week_day ws ->
+  forall W' f', dt_start_of ws u v = Ok (W', f') -> unit_id u ws W' = unit_id u ws (v_W v).
+Proof. exact start_same_unit_plain. Qed.
+Print Assumptions start_same_unit.
+
+Theorem end_same_unit : forall u ws v, plain v -> wall_in_range (v_W v) = true -> valid_unit u -> week_day ws ->
+  forall W' f', dt_end_of (we_of ws) u v = Ok (W', f') -> unit_id u ws W' = unit_id u ws (v_W v).
+Proof. exact end_same_unit_plain. Qed.
+Print Assumptions end_same_unit.
+
+Theorem start_le_x_le_end : forall u ws v, plain v -> wall_in_range (v_W v) = true -> valid_unit u -> week_day ws ->
+  forall Ws fs We fe, dt_start_of ws u v = Ok (Ws, fs) -> dt_end_of (we_of ws) u v = Ok (We, fe) ->
+  Ws <= v_W v <= We /\
+  (z_trans (v_zone v) = [] -> inst (v_zone v) Ws fs <= inst (v_zone v) (v_W v) (v_fold v) <= inst (v_zone v) We fe).
+Proof. exact start_le_x_le_end_plain. Qed.
+Print Assumptions start_le_x_le_end.
+
+Theorem pred_start_other_unit : forall u ws v, plain v -> wall_in_range (v_W v) = true -> valid_unit u -> week_day ws ->
+  forall Ws fs, dt_start_of ws u v = Ok (Ws, fs) ->
+  (forall W'', W'' < Ws -> unit_id u ws W'' <> unit_id u ws (v_W v)) /\
+  (z_trans (v_zone v) = [] -> unit_id u ws (fst (render (v_zone v) (inst (v_zone v) Ws fs - 1))) <> unit_id u ws (v_W v)).
+Proof. exact pred_start_other_unit_plain. Qed.
+Print Assumptions pred_start_other_unit.
+
+Theorem succ_end_other_unit : forall u ws v, plain v -> wall_in_range (v_W v) = true -> valid_unit u -> week_day ws ->
+  forall We fe, dt_end_of (we_of ws) u v = Ok (We, fe) ->
+  (forall W'', We < W'' -> unit_id u ws W'' <> unit_id u ws (v_W v)) /\
+  (z_trans (v_zone v) = [] -> unit_id u ws (fst (render (v_zone v) (inst (v_zone v) We fe + 1))) <> unit_id u ws (v_W v)).
+Proof. exact succ_end_other_unit_plain. Qed.
+Print Assumptions succ_end_other_unit.
+
+Theorem start_idempotent : forall u ws v, plain v -> wall_in_range (v_W v) = true -> valid_unit u -> week_day ws ->
+  forall Ws fs, dt_start_of ws u v = Ok (Ws, fs) -> exists f'', dt_start_of ws u (upd v (Ws, fs)) = Ok (Ws, f'').
+Proof. exact start_idempotent_plain. Qed.
+Print Assumptions start_idempotent.
+
+Theorem end_idempotent : forall u ws v, plain v -> wall_in_range (v_W v) = true -> valid_unit u -> week_day ws ->
+  forall We fe, dt_end_of (we_of ws) u v = Ok (We, fe) -> exists f'', dt_end_of (we_of ws) u (upd v (We, fe)) = Ok (We, f'').
+Proof. exact end_idempotent_plain. Qed.
+Print Assumptions end_idempotent.
+
+(* the zone of the result is the zone of the instance: in the model the result is re-attached to the same (zone, kind) by `upd`;
+   on the implementation side the oracle checks tzinfo/timezone_name of every result *)
+Theorem tz_kept : forall v r, v_zone (upd v r) = v_zone v /\ v_kind (upd v r) = v_kind v.
+Proof. exact tz_kept_l. Qed.
+Print Assumptions tz_kept.
+
+Theorem fold_independent : forall u ws v f1 f2, plain v -> wall_in_range (v_W v) = true -> valid_unit u -> week_day ws ->
+  same_wall (dt_start_of ws u (with_fold v f1)) (dt_start_of ws u (with_fold v f2)) /\
+  same_wall (dt_end_of (we_of ws) u (with_fold v f1)) (dt_end_of (we_of ws) u (with_fold v f2)).
+Proof. exact fold_independent_plain. Qed.
+Print Assumptions fold_independent.
+
+(* the day-by-day walk of previous()/next() equals the closed form "go back to the last day whose weekday is ws" *)
+Theorem week_walk_is_ordinal_arithmetic : forall fuel v wd, plain v -> wall_in_range (v_W v) = true -> 0 <= wd <= 6 ->
+  let j := (v_W v / us_per_day - wd) mod 7 in j < Z.of_nat fuel ->
+  dt_walk fuel (-1) wd v =
+  if 0 <=? v_W v - j * us_per_day
+  then Ok (mkdtv (v_zone v) (v_kind v) (v_W v - j * us_per_day) (if j =? 0 then v_fold v else step_fold v))
+  else Raise E_OverflowError.
+Proof. exact walk_back. Qed.
+Print Assumptions week_walk_is_ordinal_arithmetic.
+
+(* --- Date --- *)
+Theorem date_start_exact : forall ws u n, date_unit u -> 1 <= n <= 3652059 -> 0 <= ws <= 6 ->
+  date_start_of ws u n = if 1 <=? day_lo u ws n then Ok (day_lo u ws n) else Raise (if u =? 4 then E_OverflowError else E_ValueError).
+Proof. exact date_start_spec. Qed.
+Print Assumptions date_start_exact.
+
+Theorem date_end_exact : forall ws u n, date_unit u -> 1 <= n <= 3652059 -> 0 <= ws <= 6 ->
+  date_end_of ((ws + 6) mod 7) u n =
+  if day_hi u ws n <=? 3652059 then Ok (day_hi u ws n) else Raise (if u =? 4 then E_OverflowError else E_ValueError).
+Proof. exact date_end_spec. Qed.
+Print Assumptions date_end_exact.
+
+Theorem date_bounds_delimit_the_unit : forall u ws n, date_unit u ->
+  let lo := day_lo u ws n in let hi := day_hi u ws n in
+  lo <= n <= hi /\
+  unit_id u ws (wall_of_ord lo) = unit_id u ws (wall_of_ord n) /\ unit_id u ws (wall_of_ord hi) = unit_id u ws (wall_of_ord n) /\
+  unit_id u ws (wall_of_ord (lo - 1)) <> unit_id u ws (wall_of_ord n) /\ unit_id u ws (wall_of_ord (hi + 1)) <> unit_id u ws (wall_of_ord n) /\
+  day_lo u ws lo = lo /\ day_hi u ws hi = hi.
+Proof. exact date_delimit. Qed.
+Print Assumptions date_bounds_delimit_the_unit.
+
+(* --- tz-database zones (every table, no well-formedness needed for these): when the unit's first (last) wall microsecond is not a
+       skipped wall time the result is that microsecond read with the instance's fold: same unit, on the right side of the value on
+       the wall clock, idempotent, and independent of the instance's fold (of how the value was obtained).
+       _partial: the week unit (its walk constructs seven local midnights) is not covered, and the statements about instants
+       (start <= x as instants, the neighbouring microsecond) are not proved for zones with transitions; for a REPEATED boundary they
+       are false for one of the two folds (start_repeated_refuted / end_repeated_refuted below). --- *)
+Theorem start_dst_partial : forall u ws v, v_kind v = 2 -> non_week u -> wall_in_range (v_W v) = true ->
+  ~ wall_skipped (v_zone v) (sec (unit_lo u ws (v_W v))) -> 0 <= unit_lo u ws (v_W v) ->
+  let r := (unit_lo u ws (v_W v), v_fold v) in
+  dt_start_of ws u v = Ok r /\ unit_id u ws (fst r) = unit_id u ws (v_W v) /\ fst r <= v_W v /\
+  dt_start_of ws u (upd v r) = Ok r /\
+  (forall f, same_wall (dt_start_of ws u (with_fold v f)) (dt_start_of ws u v)).
+Proof. exact start_dst_props. Qed.
+Print Assumptions start_dst_partial.
+
+Theorem end_dst_partial : forall u ws we v, v_kind v = 2 -> non_week u -> wall_in_range (v_W v) = true ->
+  ~ wall_skipped (v_zone v) (sec (unit_hi u ws (v_W v))) -> unit_hi u ws (v_W v) <= MAXW ->
+  let r := (unit_hi u ws (v_W v), v_fold v) in
+  dt_end_of we u v = Ok r /\ unit_id u ws (fst r) = unit_id u ws (v_W v) /\ v_W v <= fst r /\
+  dt_end_of we u (upd v r) = Ok r /\
+  (forall f, same_wall (dt_end_of we u (with_fold v f)) (dt_end_of we u v)).
+Proof. exact end_dst_props. Qed.
+Print Assumptions end_dst_partial.
+
+Theorem dst_hypotheses_are_satisfiable :
+  v_kind (sp_value false) = 2 /\ non_week 2 /\ wall_in_range (v_W (sp_value false)) = true /\
+  ~ wall_skipped (v_zone (sp_value false)) (sec (unit_lo 2 0 (v_W (sp_value false)))) /\ 0 <= unit_lo 2 0 (v_W (sp_value false)).
+Proof. exact dst_hypotheses_satisfiable. Qed.
+Print Assumptions dst_hypotheses_are_satisfiable.
+
+(* --- refutations (faithful model, real tables) --- *)
+(* America/Sao_Paulo, 2013-10-20 10:00 -02:00: local midnight is skipped.  The value obtained by conversion (fold 0) gets
+   start_of('day') = 2013-10-19 23:00, a different day; the same instant with fold 1 gets 2013-10-20 01:00 *)
+Theorem start_skipped_refuted : exists z W u ws, wf2_zone z = true /\
+  render z (inst z W false) = (W, false) /\ inst z W false = inst z W true /\
+  wall_skipped z (sec (unit_lo u ws W)) /\
+  (exists W0 f0, dt_start_of ws u (mkdtv z 2 W false) = Ok (W0, f0) /\ unit_id u ws W0 <> unit_id u ws W) /\
+  ~ same_wall (dt_start_of ws u (mkdtv z 2 W false)) (dt_start_of ws u (mkdtv z 2 W true)).
+Proof. exact start_skipped_refuted_l. Qed.
+Print Assumptions start_skipped_refuted.
+
+(* America/Havana, 2013-11-03 12:00: local midnight happens twice; with fold 1 (a constructed value) start_of('day') is the SECOND
+   midnight, and the microsecond before it is 00:59:59.999999 of the same day; with fold 0 it is the first midnight *)
+Theorem start_repeated_refuted : exists z W u ws, wf2_zone z = true /\ wall_repeated z (sec (unit_lo u ws W)) /\
+  exists W1, dt_start_of ws u (mkdtv z 2 W true) = Ok (W1, true) /\
+  unit_id u ws (fst (render z (inst z W1 true - 1))) = unit_id u ws W /\
+  dt_start_of ws u (mkdtv z 2 W false) = Ok (W1, false) /\
+  unit_id u ws (fst (render z (inst z W1 false - 1))) <> unit_id u ws W.
+Proof. exact start_repeated_refuted_l. Qed.
+Print Assumptions start_repeated_refuted.
+
+(* Pacific/Chatham, 1992-10-04 02:44:59.999999 (gap 02:45 -> 03:45): end_of('hour') lands in the previous hour (fold 0) or the next one (fold 1) *)
+Theorem end_skipped_refuted : exists z W u ws, wf2_zone z = true /\ wall_skipped z (sec (unit_hi u ws W)) /\
+  (exists W0 f0, dt_end_of (we_of ws) u (mkdtv z 2 W false) = Ok (W0, f0) /\ unit_id u ws W0 <> unit_id u ws W) /\
+  (exists W1 f1, dt_end_of (we_of ws) u (mkdtv z 2 W true) = Ok (W1, f1) /\ unit_id u ws W1 <> unit_id u ws W).
+Proof. exact end_skipped_refuted_l. Qed.
+Print Assumptions end_skipped_refuted.
+
+(* America/Sao_Paulo, 2014-02-15 12:00: 23:00..23:59:59 happen twice; with fold 0 (a converted value) end_of('day') is the FIRST
+   23:59:59.999999 and the next microsecond is 23:00:00 of the same day; with fold 1 it is the second one *)
+Theorem end_repeated_refuted : exists z W u ws, wf2_zone z = true /\ wall_repeated z (sec (unit_hi u ws W)) /\
+  exists W1, dt_end_of (we_of ws) u (mkdtv z 2 W false) = Ok (W1, false) /\
+  unit_id u ws (fst (render z (inst z W1 false + 1))) = unit_id u ws W /\
+  dt_end_of (we_of ws) u (mkdtv z 2 W true) = Ok (W1, true) /\
+  unit_id u ws (fst (render z (inst z W1 true + 1))) <> unit_id u ws W.
+Proof. exact end_repeated_refuted_l. Qed.
+Print Assumptions end_repeated_refuted.
+
+(* Pacific/Apia: 2011-12-30 does not exist.  The backward walk of previous() from 2011-12-31 00:00 constructs 2011-12-30 00:00, which
+   create() moves forward by the 24 h gap onto 2011-12-31 00:00 again: the loop never reaches another weekday, whatever the fuel;
+   start_of('week') of 2012-01-01 12:00 (week starting on Monday) has no result *)
+Theorem week_walk_terminates_refuted : exists z v, wf2_zone z = true /\ v_zone v = z /\
+  (forall wd fuel, 0 <= wd <= 6 -> wd <> 5 -> dt_walk fuel (-1) wd v = Raise E_OutOfFuel) /\
+  dt_start_of 0 4 (mkdtv z 2 63461016000000000 true) = Raise E_OutOfFuel.
+Proof. exact week_walk_terminates_refuted_l. Qed.
+Print Assumptions week_walk_terminates_refuted.
+
+(* the initial process-wide configuration of pendulum/__init__.py (generated) is one of the 7 consistent ones *)
+Theorem default_week_configuration_consistent : week_day C12_WEEK_STARTS_AT_DEFAULT /\ C12_WEEK_ENDS_AT_DEFAULT = we_of C12_WEEK_STARTS_AT_DEFAULT.
+Proof. exact default_week_configuration_consistent_l. Qed.
 Print Assumptions default_week_configuration_consistent.
